@@ -1776,6 +1776,18 @@ impl Analyzable for Program {
 
         let assets = self.assets.analyze(self.scope.clone());
 
+        // transactions get at these definitions through the scope: it has to hold them as
+        // they are now, with the names in them resolved
+        let scope = Rc::make_mut(self.scope.as_mut().unwrap());
+
+        for policy in self.policies.iter() {
+            scope.track_policy_def(policy);
+        }
+
+        for asset in self.assets.iter() {
+            scope.track_asset_def(asset);
+        }
+
         let mut types = self.types.clone();
         let mut aliases = self.aliases.clone();
 
